@@ -45,11 +45,11 @@ pub fn emit(mut v: Value) {
 }
 
 /// No scenario of any driver produces more than about 40 000 events on the unchanged tree; a scenario that
-/// produces a million, or none for ten minutes of wall-clock time, is a livelock of the code under test
+/// produces a million, or none for four minutes of wall-clock time, is a livelock of the code under test
 /// (virtual time cannot pass the run's timeout).  That is data: the first events and a `hang` event are
 /// written, the process exits with status 3 and the resumable driver continues with the next scenario.
 pub const EVENT_CAP: u64 = 1_000_000;
-pub const QUIET_SECS: u64 = 600;
+pub const QUIET_SECS: u64 = 240;
 static LAST_EVENT: std::sync::atomic::AtomicU64 = std::sync::atomic::AtomicU64::new(0);
 fn epoch_secs() -> u64 {
     std::time::SystemTime::now().duration_since(std::time::UNIX_EPOCH).map(|d| d.as_secs()).unwrap_or(0)
@@ -74,7 +74,7 @@ pub fn install_watchdog() {
         std::thread::sleep(std::time::Duration::from_secs(5));
         let last = LAST_EVENT.load(std::sync::atomic::Ordering::Relaxed);
         if epoch_secs().saturating_sub(last) > QUIET_SECS {
-            hang("no event for 600 s of wall-clock time");
+            hang("no event for 240 s of wall-clock time");
         }
     });
 }
